@@ -859,6 +859,29 @@ async fn join_future_polled_then_dropped_actor_survives() -> String {
     )
 }
 
+/// two join futures of one owning address alive at once: the first was polled and is pending,
+/// the second is answered at once (the task handle is taken), the first gets the actor
+async fn second_join_while_first_is_pending() -> String {
+    let c = claim(126);
+    let mut o = Spawnable::spawn_owning(Probe::<126>::new());
+    let _ = o.send(Push(1)).await;
+    let mut j1 = Box::pin(o.join());
+    let first_ready = futures::FutureExt::now_or_never(&mut j1).is_some();
+    settle().await;
+    let mut j2 = Box::pin(o.join());
+    let second = match futures::FutureExt::now_or_never(&mut j2) {
+        Some(v) => state_of(v),
+        None => "pending".to_string(),
+    };
+    let mut a = o.to_addr();
+    let s = full(&a.stop());
+    let first = state_of(j1.await);
+    format!(
+        "first_ready_at_once={first_ready} second_join_at_once={second} stop={s} first_join={first} {}",
+        c.life()
+    )
+}
+
 async fn join_failed_start() -> String {
     let c = claim(71);
     let mut o = Spawnable::spawn_owning(Probe::<71>::with(Mode::FailStart));
@@ -1309,6 +1332,7 @@ static SCENARIOS: &[Scenario] = scenarios![
     join_futures_awaited_in_reverse,
     consume_after_dropped_join,
     join_future_polled_then_dropped_actor_survives,
+    second_join_while_first_is_pending,
     join_failed_start,
     failed_start_detached,
     failed_start_builder_owning,
